@@ -74,7 +74,7 @@ void derivatives(vf::Ctx& c, double roll) {
 // ---- A2: one SmartRotation3D object through every sequence of init() calls and derivative reads, vs a fresh object -------
 void derivative_sequences(vf::Ctx& c, int depth, int form, int firstOp) {
   std::vector<V3> A = {{0, 0, 0}, {0.7, -0.4, 2.1}, {-2.6, 1.2, -0.3}, {0.7, -0.4, -1.0}, {0, 0.9, 0}, {1e-7, -1.45, 3.1}};
-  const int NI = (int)A.size(), NOPS = 2 * NI + 1;   // init(vector) x6, init(3 scalars) x6, read
+  const int NI = (int)A.size(), NOPS = 2 * NI + 3;   // init(vector) x6, init(3 scalars) x6, read, assign to another long-lived object and continue with it, continue with a copy
   V3 t(1, -2, 3);
   auto same = [&](const SmartRotation3D& a, const SmartRotation3D& b) {
     return a.R() == b.R() && a.dRdAngleAroundXAxis() == b.dRdAngleAroundXAxis() && a.dRdAngleAroundYAxis() == b.dRdAngleAroundYAxis() && a.dRdAngleAroundZAxis() == b.dRdAngleAroundZAxis() && a.dRTdAngles(t) == b.dRTdAngles(t) && a * t == b * t;
@@ -84,8 +84,10 @@ void derivative_sequences(vf::Ctx& c, int depth, int form, int firstOp) {
     std::vector<int> seq(depth); seq[0] = firstOp;
     for (uint64_t k = 0; k < total; ++k) {
       uint64_t r = k; for (int i = 1; i < depth; ++i) { seq[i] = r % NOPS; r /= NOPS; }
-      SmartRotation3D obj0, obj1(A[1]), obj2(A[2][0], A[2][1], A[2][2]);
-      SmartRotation3D& obj = form == 0 ? obj0 : form == 1 ? obj1 : obj2;
+      SmartRotation3D obj0, obj1(A[1]), obj2(A[2][0], A[2][1], A[2][2]), spare(A[5]);
+      (void)spare.dRdAngleAroundYAxis();
+      SmartRotation3D* cur_ = form == 0 ? &obj0 : form == 1 ? &obj1 : &obj2; SmartRotation3D* other_ = &spare;
+#define obj (*cur_)
       V3 cur = form == 0 ? V3(0, 0, 0) : A[form];
       bool inited = form != 0;   // the derivatives of a default-constructed, never initialised object are not specified
       for (int i = 0; i <= depth; ++i) {
@@ -93,19 +95,22 @@ void derivative_sequences(vf::Ctx& c, int depth, int form, int firstOp) {
         c.transitions();
         if (op < NI) { obj.init(A[op]); cur = A[op]; inited = true; continue; }
         if (op < 2 * NI) { obj.init(A[op - NI][0], A[op - NI][1], A[op - NI][2]); cur = A[op - NI]; inited = true; continue; }
+        if (op == 2 * NI + 1) { *other_ = *cur_; std::swap(cur_, other_); continue; }
+        if (op == 2 * NI + 2) { SmartRotation3D cp(*cur_); *other_ = SmartRotation3D(A[3]); std::swap(cur_, other_); *cur_ = std::move(cp); continue; }   // copy-construct, then move-assign into the slot used from now on
         if (!inited) { (void)obj.dRdAngleAroundXAxis(); (void)obj.dRTdAngles(t); continue; }   // still read (a cache would be filled here)
         c.eval(); if (i) c.nontrivial();
         SmartRotation3D fresh(cur);
         for (int j = 0; j < 9; ++j) c.obs(obj.dRdAngleAroundZAxis()(j / 3, j % 3));
         if (!same(obj, fresh)) {
           std::vector<std::string> hs; hs.push_back(form == 0 ? "SmartRotation3D()" : form == 1 ? "SmartRotation3D(vector A1)" : "SmartRotation3D(A2 scalars)");
-          for (int j = 0; j <= i && j < depth; ++j) { char b[64]; if (seq[j] < 2 * NI) snprintf(b, 64, "init(A%d%s)", seq[j] % NI, seq[j] < NI ? " vector" : " scalars"); else snprintf(b, 64, "read"); hs.push_back(b); }
+          for (int j = 0; j <= i && j < depth; ++j) { char b[64]; if (seq[j] < 2 * NI) snprintf(b, 64, "init(A%d%s)", seq[j] % NI, seq[j] < NI ? " vector" : " scalars"); else snprintf(b, 64, "%s", seq[j] == 2 * NI ? "read" : seq[j] == 2 * NI + 1 ? "other = object; continue with other" : "continue with a moved-in copy"); hs.push_back(b); }
           if (i == depth) hs.push_back("read");
           c.violation("SmartRotation3D.derivatives.dependOnHistory", vf::JO().strs("history", hs).vec("angles", std::vector<double>{cur[0], cur[1], cur[2]}).done(),
                       vf::JO().num("R_diff", (obj.R() - fresh.R()).norm()).num("dRdX_diff", (obj.dRdAngleAroundXAxis() - fresh.dRdAngleAroundXAxis()).norm()).num("dRdY_diff", (obj.dRdAngleAroundYAxis() - fresh.dRdAngleAroundYAxis()).norm()).num("dRdZ_diff", (obj.dRdAngleAroundZAxis() - fresh.dRdAngleAroundZAxis()).norm()).done());
           break;
         }
       }
+#undef obj
       c.traces();
       if (c.c.violations > 30) return;
     }
@@ -219,7 +224,7 @@ template <class S> void ls_cov(vf::Ctx& c, const char* tname) {
 
 }  // namespace
 
-uint64_t vf_ncases(const std::string& tier) { g_th = tier == "thorough"; return rollyaw().size() + transforms().size() + 2 + 39; }
+uint64_t vf_ncases(const std::string& tier) { g_th = tier == "thorough"; return rollyaw().size() + transforms().size() + 2 + 45; }
 
 void vf_run(uint64_t idx, const std::string& tier, vf::Ctx& c) {
   g_th = tier == "thorough";
@@ -228,7 +233,7 @@ void vf_run(uint64_t idx, const std::string& tier, vf::Ctx& c) {
   else if (idx < nr + nt) pose_cov(c, idx - nr);
   else if (idx == nr + nt) ls_cov<double>(c, "double");
   else if (idx == nr + nt + 1) ls_cov<float>(c, "float");
-  else { int k = (int)(idx - nr - nt - 2); derivative_sequences(c, g_th ? 7 : 4, k / 13, k % 13); }
+  else { int k = (int)(idx - nr - nt - 2); derivative_sequences(c, g_th ? 7 : 4, k / 15, k % 15); }
 }
 
 std::string vf_describe(const std::string& tier) {
@@ -236,7 +241,7 @@ std::string vf_describe(const std::string& tier) {
   vf::JO o;
   o.vec("roll_yaw", rollyaw()).vec("pitch", pitches());
   o.str("finite_differences", "central differences with Richardson extrapolation (h=1e-4, 5e-5) of the library's own R() and operator*(Affine3d,Pose3D); tolerance 1e-9 absolute (rotation derivatives), 1e-8 relative (covariances)");
-  o.str("derivative_sequences", std::string("one SmartRotation3D (default-constructed / constructed from a vector / from three scalars) through every sequence of ") + (g_th ? "7" : "4") + " operations out of 13 (init with 6 angle triples in both overloads, read of all derivative matrices) followed by a read; every read bit-equal to a fresh object at the current angles");
+  o.str("derivative_sequences", std::string("one SmartRotation3D (default-constructed / constructed from a vector / from three scalars) through every sequence of ") + (g_th ? "7" : "4") + " operations out of 15 (init with 6 angle triples in both overloads, read of all derivative matrices, assignment to another long-lived object, moved-in copy) followed by a read; every read bit-equal to a fresh object at the current angles");
   o.str("transform_catalogue", "identity, yaw, roll, pitch, two generic axes, a yaw composed with a tilt of {1e-9,1e-6,3e-4,8e-4,1e-2} rad, rotations of 1e-7 and 2e-4 rad about a generic axis; each with and without translation");
   o.u("transforms", transforms().size()).u("attitudes", attitudes().size()).u("covariances", cov_catalogue().size());
   o.str("least_squares", "estimate size 1..6, data size {p,p+3,40}, Cholesky and SVD, preconditioner {none, diag(0.5+j)+offset, diag(1e3/1e-3)+offset}, second problem on a reused solver; design matrix magnitude {1, 2^-17, 2^10} (float {1, 2^-6, 2^6}); float and double; tolerance 16 eps kappa(J)^2");
